@@ -7,6 +7,7 @@ by the solver.  Class forms (quantifiers.py) are proved textually equal to the m
 from .. import vcrun
 from . import _b1
 from ._groups import EXC
+from . import _f7
 
 LEVEL = "proof"
 P = "pregex.core.pre.Pregex."
@@ -22,6 +23,7 @@ def run(rep, tier):
     vcrun.run_functions(rep, FUNCS + EXC, tier)
     # the quantifiers group the operand by its inferred category and raise CannotBeRepeatedException off its repeatable flag:
     # both VALUES are __infer_type's assumed contract
+    _f7.decide(rep)      # F7: type and repeatable flag of EVERY literal string (regular-language facts about the real regexes)
     _b1.run(rep, tier, ["category", "flag", "total"], "category (is the operand an atom: (?:P) or P before the suffix) and repeatable flag "
             "of every emitted text (a wrongly refused operand has no repetitions at all)")
     rep.trusted += ["R2 compositionality (placeholders)", "R3 quantifiers", "R4 grouping",
